@@ -29,6 +29,39 @@ def fin(s):
     return math.isfinite(float(s))
 
 
+def sk_patch(log):
+    """log, at the level of the sklearn estimators behind the surrogate wrappers, what every estimator object was last fitted on
+    and which estimator objects predict"""
+    from gradient_free_optimizers.optimizers.smb_opt import surrogate_models as sm
+    saved = []
+    for c in (sm.GaussianProcessRegressor, sm.BayesianRidge, sm._ExtraTreesRegressor_, sm._RandomForestRegressor_, sm._GradientBoostingRegressor_):
+        had = ("fit" in c.__dict__, "predict" in c.__dict__)
+        ofit, opred = c.fit, c.predict
+
+        def fit(self, X, y, *a, _o=ofit, **k):
+            log["fit"][id(self)] = (np.array(X, dtype=float).copy(), np.ravel(np.array(y, dtype=float)).copy())
+            return _o(self, X, y, *a, **k)
+
+        def predict(self, X, *a, _o=opred, **k):
+            log["pred"].append(id(self))
+            return _o(self, X, *a, **k)
+        c.fit, c.predict = fit, predict
+        saved.append((c, had, ofit, opred))
+    return saved
+
+
+def sk_unpatch(saved):
+    for c, had, ofit, opred in saved:
+        if had[0]:
+            c.fit = ofit
+        else:
+            del c.fit
+        if had[1]:
+            c.predict = opred
+        else:
+            del c.predict
+
+
 def run_smbo(name, space, fobj, seed, n_iter, cfg, init):
     """runs one SMBO optimizer step by step, capturing acquisition vectors / candidate sets / X,Y samples"""
     import gradient_free_optimizers as gfo
@@ -85,6 +118,8 @@ def run_smbo(name, space, fobj, seed, n_iter, cfg, init):
             return best, worst
         opt._get_samples = gs
     steps = []
+    sklog = dict(fit={}, pred=[])
+    saved = sk_patch(sklog)
     try:
         with contextlib.redirect_stdout(io.StringIO()), contextlib.redirect_stderr(io.StringIO()):
             opt.init_search(fobj, n_iter, None, None, None, False, None, False)
@@ -92,17 +127,39 @@ def run_smbo(name, space, fobj, seed, n_iter, cfg, init):
                 pre = dict(X=[tup(p) for p in opt.X_sample], Y=[float(y) for y in opt.Y_sample],
                            comb=([tup(p) for p in opt.all_pos_comb] if hasattr(opt, "all_pos_comb") else None))
                 cap.update(acq=None, comb=None, trained=None)
+                del sklog["pred"][:]
                 opt.search_step(k)
+                train = None
+                if cap["acq"] is not None and cap["trained"] is not False and sklog["pred"]:
+                    # every sklearn estimator that predicted for this proposal must have been fitted last on exactly the samples
+                    # the optimizer held before the step
+                    wantX = np.array(pre["X"], dtype=float).reshape(len(pre["X"]), -1)
+                    wantY = np.array(pre["Y"], dtype=float)
+                    train = True
+                    for eid in set(sklog["pred"]):
+                        got = sklog["fit"].get(eid)
+                        # (the scores may be rescaled before fitting: the fitted targets must be an order-preserving image of Y_sample)
+                        def same_order(a, b):
+                            if len(a) != len(b):
+                                return False
+                            if len(set(a.tolist())) <= 1:      # a constant score vector is replaced by random targets (normalize: den == 0)
+                                return True
+                            return all((a[i] < a[j]) == (b[i] < b[j]) for i in range(len(a)) for j in range(len(a)))
+                        if got is None or got[0].shape != wantX.shape or not np.array_equal(got[0], wantX) or not same_order(wantY, got[1]):
+                            train = dict(fitted_on_X=(None if got is None else got[0].tolist()), fitted_on_y=(None if got is None else got[1].tolist()),
+                                         X_sample=wantX.tolist(), Y_sample=wantY.tolist())
+                            break
                 post = dict(X=[tup(p) for p in opt.X_sample], Y=[float(y) for y in opt.Y_sample],
                             comb=([tup(p) for p in opt.all_pos_comb] if hasattr(opt, "all_pos_comb") else None))
                 steps.append(dict(k=k, is_init=(k < opt.n_inits_norm), pos=tup(opt.pos_l[-1]), score=float(opt.score_l[-1]), pre=pre, post=post,
-                                  acq=cap["acq"], pos_comb=cap["comb"], trained=cap["trained"]))
+                                  acq=cap["acq"], pos_comb=cap["comb"], trained=cap["trained"], train=train))
             opt.finish_search()
         exc = None
     except Exception as e:
         import traceback
         exc = (type(e).__name__, str(e)[:150], traceback.format_exc()[-1200:])
     finally:
+        sk_unpatch(saved)
         if name == "LipschitzOptimizer":
             lipmod.LipschitzFunction.calculate = orig_calc
     opt._verif_splits = splits
@@ -132,12 +189,24 @@ def run(ctx):
                   "X_sample / Y_sample after construction vs the model; non-trivial = some row is filtered; distinct by (space, frame)")
     ctx.monitor_rule = ("X_sample / Y_sample == finite-scored evaluations in order (after the valid warm-start rows); every model-based "
                         "proposal attains the maximum of the captured acquisition vector; with replacement=False no position is "
-                        "proposed twice in the iteration phase by the model path; TPE's two densities are fitted on a partition of the training points; "
+                        "proposed twice in the iteration phase by the model path; TPE's two densities are fitted on a partition of the training points; every "
+                        "sklearn estimator that predicts for a proposal was last fitted on exactly X_sample / Y_sample (also for back-to-back runs of two "
+                        "instances sharing the default surrogate object); "
                         "distinct by (optimizer, seed)")
     rng = ctx.sub_rng("c17")
     tl, tc, pl, pc, wl, wc, spl, spc = [], [], [], [], [], [], [], []
     n_runs = 16 if ctx.quick else 84
-    for it in range(n_runs):
+    # back-to-back pairs (same class, same space, the second run's first training matrix has the shape of the first run's last one):
+    # a surrogate object shared between instances must be refitted on the second optimizer's own samples
+    pairs = []
+    for pname in ("BayesianOptimizer", "ForestOptimizer", "BayesianOptimizer") if ctx.quick else ("BayesianOptimizer", "ForestOptimizer") * 4:
+        a = rng.choice([2, 3, 4])
+        k = rng.choice([2, 3])
+        psp = {"p0": np.arange(rng.choice([5, 7])), "p1": np.arange(rng.choice([3, 4]))}
+        for (ni, nt) in ((a, a + k), (a + k - 1, a + k + 2)):
+            pairs.append(dict(name=pname, space=psp, init={"random": ni}, n_iter=nt))
+    for it in range(n_runs + len(pairs)):
+        plan = pairs[it - n_runs] if it >= n_runs else None
         name = SMBO4[it % 4]
         space, meta = gen.gen_space(rng, ndims=rng.choice([1, 2]), sizes=(3, 5, 8), max_points=40)
         names = list(space.keys())
@@ -180,6 +249,15 @@ def run(ctx):
         init = {"random": rng.choice([2, 3, 4])}
         seed = rng.randrange(10 ** 6)
         n_iter = init["random"] + (8 if ctx.quick else 12)
+        if plan is not None:
+            name, space, init, n_iter, cfg, feas = plan["name"], plan["space"], plan["init"], plan["n_iter"], {}, None
+            names = list(space.keys())
+            if name == "ForestOptimizer":
+                cfg["tree_para"] = {"n_estimators": 5}
+            sp_lit, cons_lit, _vs = space_lits(space, None)
+
+            def fobj(para, names=names):
+                return -float(sum((float(para[n]) - 1.0) ** 2 for n in names))
         opt, steps, exc = run_smbo(name, space, fobj, seed, n_iter, cfg, init)
         ctx.monitor_runs += 1
         ctx.monitor_nontrivial.add((name, seed))
@@ -214,6 +292,12 @@ def run(ctx):
                               "%s: X_sample / Y_sample are not the finite-scored evaluations in order after step %d" % (name, st["k"]))
                 break
             model_path = (not st["is_init"]) and st["acq"] is not None and st["trained"] is not False
+            if model_path and isinstance(st.get("train"), dict):
+                ctx.violation(dict(kind="surrogate-trained-on-other-data", optimizer=name),
+                              dict(optimizer=name, cfg=jsonable({k_: v_ for k_, v_ in cfg.items() if k_ != "constraints"}), seed=seed, step=st["k"], initialize=init, n_iter=n_iter,
+                                   space=jsonable(space), detail=st["train"]),
+                              "%s: the estimator predicting for the proposal of step %d was last fitted on other data than X_sample / Y_sample" % (name, st["k"]))
+                break
             if model_path:
                 acq, comb = st["acq"], st["pos_comb"]
                 if st["pos"] not in comb:
